@@ -401,7 +401,8 @@ impl Cluster {
             }
             if !joined {
                 let ms: Vec<String> = (0..=i).map(|k| self.metrics(k).map(|m| format!("n{}:{}/L{}/t{}/log{}/app{}/members{}", k + 1, m["state"], m["current_leader"], m["current_term"], m["last_log_index"], m["last_applied"], m["membership_config"]["members"])).unwrap_or_else(|| format!("n{}:no-answer", k + 1))).collect();
-                return Err(format!("node {} did not become a voting member (management API used: {}); metrics {:?}; log: {}", i + 1, helped, ms, self.log_tail(i).chars().rev().take(500).collect::<String>().chars().rev().collect::<String>()));
+                let leader_errs: Vec<String> = std::fs::read_to_string(&self.nodes[0].log).unwrap_or_default().lines().filter(|l| l.contains("ERROR") || l.contains("panicked")).map(|l| l.chars().take(220).collect::<String>()).collect::<Vec<_>>().into_iter().rev().take(4).collect();
+                return Err(format!("node {} did not become a voting member (management API used: {}); metrics {:?}; leader errors: {:?}; log: {}", i + 1, helped, ms, leader_errs, self.log_tail(i).chars().rev().take(300).collect::<String>().chars().rev().collect::<String>()));
             }
         }
         self.wait_quiescent_nudged(45, 0).map(|_| ())
